@@ -216,8 +216,16 @@ where
             datetime.format("%a %b %d").to_string()
         }
         brush_parser::prompt::PromptDateFormat::Custom(fmt) => {
+            // N.B. An invalid strftime specifier makes chrono's `Display` fail, and `to_string()`
+            // panics on that; fall back to the format text itself.
+            use std::fmt::Write;
             let fmt_items = chrono::format::StrftimeItems::new(fmt);
-            datetime.format_with_items(fmt_items).to_string()
+            let mut formatted = String::new();
+            if write!(formatted, "{}", datetime.format_with_items(fmt_items)).is_err() {
+                formatted.clear();
+                formatted.push_str(fmt);
+            }
+            formatted
         }
     }
 }
